@@ -150,6 +150,7 @@ func init() {
 func famSesHs(t *testing.T, r *Rec) {
 	hsSharedInitial(t, r)
 	hsOverlapping(t, r)
+	hsHeadersAcrossUpgrade(t, r)
 	type cfg struct {
 		I, T, max   int
 		transports  string
@@ -361,6 +362,45 @@ func famSesHs(t *testing.T, r *Rec) {
 				if !isHs && ih[rs.req] != 0 {
 					r.Violate("C17", "C17/initial_headers/on-later-response", fmt.Sprintf("initial_headers fired for response %d (not the handshake) of s%d", rs.req, sess), replay)
 				}
+			}
+		}
+	}
+}
+
+// hsHeadersAcrossUpgrade: a client that does not pause polling before it sends the upgrade packet: the poll left
+// pending is answered by the old transport as it closes, right around the upgrade event. It is a response of the
+// session like any other: one headers event (C17).
+func hsHeadersAcrossUpgrade(t *testing.T, r *Rec) {
+	for _, wait := range []bool{false, true} {
+		lines := []string{"ses cfg 25000 20000 1000 100000 default 1 0 - 1 - hdr", "ses hs polling 4 0 -", "ses poll s0", "ses ws s0 4 0", "ses frame 0 t 3270726f6265"}
+		if wait {
+			lines = append(lines, "ses adv 100", "ses poll s0") // the fast-upgrade noop released the first poll; a second one is pending at the switch
+		}
+		lines = append(lines, "ses frame 0 t 35", "ses obs", "ses send s0 t 6869 0 0 -")
+		outs := sesRun(t, lines)
+		r.scenarios++
+		r.Cover(fmt.Sprintf("hs/headers-across-upgrade/wait=%v", wait))
+		hd, ok200 := map[int]int{}, map[int]bool{}
+		for i, l := range lines {
+			r.Op(l, outs[i])
+			if outs[i] == "-" || outs[i] == "ok" {
+				continue
+			}
+			o := parseObs(outs[i])
+			for _, e := range o.events {
+				if e.who == "srv" && e.name == "headers" {
+					hd[atoi(e.args[0])]++
+				}
+			}
+			for _, rs := range o.resps {
+				if rs.status == 200 {
+					ok200[rs.req] = true
+				}
+			}
+		}
+		for rq := range ok200 {
+			if hd[rq] != 1 {
+				r.Violate("C17", fmt.Sprintf("C17/headers-event/across-upgrade/count=%d", hd[rq]), fmt.Sprintf("response %d of a session that upgraded while it was pending fired %d headers events", rq, hd[rq]), lines)
 			}
 		}
 	}
@@ -795,6 +835,10 @@ func famSesHostile(t *testing.T, r *Rec) {
 		body := append([]byte("4"), bytes_repeat('y', sz-1)...)
 		add(fmt.Sprintf("limit/ws-frame/size=%d", sz), "C10", "ses hs websocket 4 0 -", "ses frame 0 t "+hx(body), "ses frame 0 t 346f6b")
 	}
+	// the limit on the JSONP flavour of polling (the body is the form field d=<payload>)
+	for _, sz := range []int{97, 98, 99, 197, 299, 5000} {
+		add(fmt.Sprintf("limit/jsonp-post/size=%d", sz+2), "C10", "ses hs polling 4 0 "+hx([]byte("7")), "ses postj s1 "+hx(append([]byte("4"), bytes_repeat('j', sz-1)...)))
+	}
 	// the limit on a connection that became the session's transport through an upgrade
 	for _, sz := range []int{100, 101, 5000} {
 		body := append([]byte("4"), bytes_repeat('z', sz-1)...)
@@ -873,7 +917,10 @@ func famSesHostile(t *testing.T, r *Rec) {
 				f := strings.Fields(l)
 				o := parseObs(outs[i])
 				size := 0
-				if f[1] == "post" {
+				if f[1] == "postj" {
+					size = len(unhx(f[3])) + 2
+					f[1] = "post"
+				} else if f[1] == "post" {
 					size = len(unhx(f[5]))
 				} else if f[1] == "frame" {
 					size = len(unhx(f[4]))
